@@ -80,9 +80,7 @@ let mode_flow () =
     | "start" :: _ -> st := (flow_init, n_of_int 1000000); rs := rx_init; out "start 0"
     | "cap" :: v :: _ -> step (FCap (ni v))
     | "flush" :: _ -> step FFlush
-    | "time" :: v :: _ -> step (FTime (ni v)); step FExpire   (* drv.c: clock, then the library's expiry pass *)
-    | "clock" :: v :: _ -> step (FTime (ni v))
-    | "expire" :: _ -> step FExpire
+    | "time" :: v :: _ -> step (FTime (ni v))
     | "seqon" :: v :: _ -> step (FSeqOn (v <> "0"))
     | "reset_nodes" :: _ -> step FReset
     | "send" :: t :: s :: ss :: ty :: d :: _ -> step (FSend (((ni t, ni s), ni ss), ni ty, unhex d))
